@@ -26,7 +26,7 @@ import warnings
 from . import lib
 
 ALPHABET = "0123456789_.eExXoObB+-"
-RULE = ("numbers: every spelling of length 1..L over [0-9_.eExXoObB+-] (L=4 quick, 5 thorough), lexed inside "
+RULE = ("numbers: every spelling of length 1..L over [0-9_.eExXoObB+-] (L=4 quick with digits 0,1,7,9 at length 4; 5 thorough, all digits), lexed inside "
         "`{{ s }}` and, for L-1, after `x.`; distinct = the spelling (+ context); non-trivial = the real lexer's first "
         "token is an integer or float token. Plus random integers (all four bases, random underscores, up to 4400 "
         "digits), random floats (repr, exponent and underscore variants), spellings with non-ASCII decimal digits. "
@@ -224,7 +224,7 @@ def random_numbers(ctx, R, limit):
         cases.append(s)
     # big integers: up to and across CPython's digit limit (the extracted model multiplies unary-built binary numbers:
     # a few dozen of these cost seconds)
-    for nd in [1500, 4000, 4299, 4300, 4301, 4400] * ctx.size(2, 10):
+    for nd in (([1500, 4299, 4300, 4301]) if ctx.tier != "thorough" else [1500, 4000, 4299, 4300, 4301, 4400] * 10):
         d = str(rng.randint(1, 9)) + "".join(rng.choice("0123456789") for _ in range(nd - 1))
         cases.append(d if rng.random() < 0.5 else underscored(d))
         dig = rng.choice(["01", "01234567", "0123456789abcdefABCDEF"])
@@ -276,7 +276,7 @@ def gen_values(ctx):
     vals += [[c] for c in range(0, 300)]                      # every code point of the dense low range
     vals += [[c, ord("7")] for c in (0, 1, 7, 8, 63, 64, 255, 256, 511, 512)]   # octal followed by a digit
     vals += [[c, ord("a")] for c in (0, 15, 16, 255, 256, 0xFFF, 0x1000, 0xFFFF, 0x10000)]  # hex followed by a hex letter
-    for _ in range(ctx.size(1500, 20000)):
+    for _ in range(ctx.size(900, 20000)):
         n = rng.randint(1, 8)
         vals.append([rng.choice(CLASSES)(rng) for _ in range(n)])
     return vals
@@ -401,16 +401,150 @@ def literal_groups(ctx, R):
             ctx.validated()
 
 
+POSITIONS = {
+    "print": "«V grab(LIT) V»",
+    "filter-arg": "«V grab(0|cap(LIT)) V»", "filter-kwarg": "«V grab(0|cap(a=LIT)) V»", "test-arg": "«V grab(0 is capt(LIT)) V»",
+    "default-filter": "«V grab(nothere|default(LIT)) V»", "macro-default": "«B macro m(a=LIT) B»«V grab(a) V»«B endmacro B»«V m() V»",
+    "call-kwarg": "«V grab(k=LIT) V»", "subscript": "«V grab(K[LIT]) V»", "slice": "«V grab(K[LIT:LIT]) V»",
+    "dict-key": "«V grab({LIT: 0}|list|first) V»", "dict-value": "«V grab({'k': LIT}['k']) V»", "list-item": "«V grab([0, LIT][1]) V»",
+    "tuple-item": "«V grab((LIT, 0)[0]) V»", "set": "«B set v = LIT B»«V grab(v) V»", "with": "«B with v = LIT B»«V grab(v) V»«B endwith B»",
+    "for-iter": "«B for i in [LIT] B»«V grab(i) V»«B endfor B»", "if-cond": "«B if grab(LIT) is none B»«B endif B»",
+    "cond-expr": "«V grab(LIT if true else 0) V»", "compare-rhs": "«V grab(K == LIT) V»", "call-block-arg": "«B macro w(a) B»«V grab(a) V»«V caller() V»«B endmacro B»«B call w(LIT) B»«B endcall B»",
+    "set-block-filter": "«B set x | capg(LIT) B»«B endset B»", "filter-block": "«B filter capg(LIT) B»«B endfilter B»",
+    "nested": "«V grab([{'a': (LIT,)}][0]['a'][0]) V»", "line-statement": "LS",
+}
+
+
+class _Key:
+    """subscript / comparison target that hands back what it was given"""
+    def __getitem__(self, k):
+        return (k.start, k.stop) if isinstance(k, slice) else k
+
+    def __eq__(self, other):
+        return other
+
+    __hash__ = None
+
+
+def literal_positions(ctx, R):
+    """a literal in every syntactic position, under every environment configuration the property does not
+    exclude, on ONE long-lived environment per configuration (lexer / template caches accumulate) with a
+    sample re-evaluated on a fresh environment"""
+    import asyncio
+    jinja2 = R.jinja2
+    from jinja2.sandbox import SandboxedEnvironment
+    from jinja2.nativetypes import NativeEnvironment
+    rng = ctx.rng
+    box = []
+
+    def grab(*a, **k):
+        box.append(list(a) + [k[x] for x in sorted(k)])
+        return None
+
+    def cap(v, a=None):
+        return a
+
+    def capt(v, a=None):
+        return a
+
+    def mk(name):
+        kw = {}
+        cls = jinja2.Environment
+        if name == "unoptimized":
+            kw["optimized"] = False
+        elif name == "sandboxed":
+            cls = SandboxedEnvironment
+        elif name == "native":
+            cls = NativeEnvironment
+        elif name == "async":
+            kw["enable_async"] = True
+        elif name == "delimiters":
+            kw.update(block_start_string="<%", block_end_string="%>", variable_start_string="${", variable_end_string="}",
+                      comment_start_string="<#", comment_end_string="#>")
+        elif name == "line":
+            kw.update(line_statement_prefix="%%", line_comment_prefix="%#")
+        elif name == "autoescape":
+            kw["autoescape"] = True
+        env = cls(**kw)
+        env.filters["cap"] = cap
+        env.filters["capg"] = lambda v, a=None: grab(a) or ""
+        env.tests["capt"] = capt
+        env.globals.update(grab=grab, K=_Key())
+        return env
+
+    configs = ["plain", "unoptimized", "sandboxed", "native", "async", "delimiters", "line", "autoescape"]
+    envs = {c: mk(c) for c in configs}
+    numbers = ["0", "7", "1_000", "0b1_01", "0B11", "0o1_7", "0O7", "0xA_f", "0XfF", "1.5", "1e5", "1E5", "1e+5", "1e-5", "1_0.0_1e+1_0",
+               "2.5E-3", "00", "0_0", "9" * 30, "1.0", "1", "0.1", "123456789012345678901234567890.5"]
+    strings = ["'a'", '"a"', "'it\\'s'", "'a' \"b\"", "'a' 'b' 'c'", "'\\n\\t\\x41\\u00e9'", "'é😀'", "'\\\\'", "''", "'1'", "'a\\\nb'", "\"q'q\""]
+    n = ctx.size(1200, 25000)
+    for i in range(n):
+        pos = rng.choice(list(POSITIONS))
+        cfg = rng.choice(configs)
+        lit = rng.choice(numbers if rng.random() < 0.6 else strings)
+        if i < len(POSITIONS) * len(configs):          # every position under every configuration at least once
+            pos = list(POSITIONS)[i % len(POSITIONS)]
+            cfg = configs[i // len(POSITIONS)]
+        try:
+            want = ast.literal_eval(lit)
+        except Exception:  # noqa
+            continue
+        if pos == "dict-key" and isinstance(want, float) and want != want:
+            continue
+        tmpl = POSITIONS[pos]
+        if pos == "line-statement":
+            if cfg != "line":
+                cfg = "line"
+            src = "%% set v = " + lit + "\n{{ grab(v) }}"
+        else:
+            vs, ve, bs, be = ("${", "}", "<%", "%>") if cfg == "delimiters" else ("{{", "}}", "{%", "%}")
+            src = tmpl.replace("«V", vs).replace("V»", ve).replace("«B", bs).replace("B»", be).replace("LIT", lit)
+        expect = [want, want] if pos == "slice" else [want]
+        case = {"position": pos, "configuration": cfg, "literal": lit, "source": src}
+        ctx.case(key=("position", pos, cfg, lit), sample=case if len(ctx.samples) < 6 and i % 401 == 0 else None)
+        ctx.count("position/" + pos)
+        ctx.count("config/" + cfg)
+
+        def evaluate(env):
+            del box[:]
+            try:
+                t = env.from_string(src)
+                if env.is_async:
+                    asyncio.run(t.render_async())
+                else:
+                    t.render()
+            except Exception as e:  # noqa
+                return "raised " + type(e).__name__ + ": " + str(e)[:60]
+            got = box[-1] if box else "nothing captured"
+            if pos == "slice" and isinstance(got, list) and len(got) == 1 and isinstance(got[0], tuple):
+                got = list(got[0])
+            return got
+
+        got = evaluate(envs[cfg])
+        ok = isinstance(got, list) and [(type(a), a) for a in got] == [(type(a), a) for a in expect]
+        if not ok:
+            ctx.reject(case, f"literal {lit} in position {pos} ({cfg}) denotes {got!r}, Python: {expect!r}", f"C14:position:{pos}:{cfg}:{lit}")
+            continue
+        if i % 10 == 0:
+            fresh = evaluate(mk(cfg))
+            if fresh != got:
+                ctx.reject(case, f"long-lived environment gives {got!r}, a fresh one {fresh!r}", f"C14:history:{pos}:{cfg}:{lit}")
+                continue
+        ctx.validated()
+
+
 def escape_soup(ctx, R):
     rng = ctx.rng
     bodies = ["a\nb", "a\rb", "a\r\nb", "\r", "\n\n", "a\r\rb", "x\n\ry", "\\n\n", "é\r\n😀", "\\x4", "\\x4g", "\\u12", "\\U0011000", "\\U00110000", "\\U0010ffff", "\\777", "\\8", "\\0", "\\1a", "\\z",
               "\\\n", "a\\\nb", "\\N{DASH}", "\\N", "\\", "\\\\", "\\xZZ", "\\u00e9", "\\ud800", "\\x41\\101\\u0041",
               "\r\n", "a\rb", "a\r\nb", "\n\r", "\\\r\n", "\\\r"]
-    for _ in range(ctx.size(3000, 40000)):
+    for _ in range(ctx.size(1800, 40000)):
         bodies.append("".join(rng.choice(SOUP) for _ in range(rng.randint(1, 7))))
-    for nl, env, nlname in (("\n", R.env, "LF"), ("\r\n", R.env_crlf, "CRLF")):
+    # third pass: the default environment AFTER an environment with another newline_sequence has lexed the same
+    # literals (history across configurations: anything memoised per spelling would show here)
+    for nl, env, nlname in (("\n", R.env, "LF"), ("\r\n", R.env_crlf, "CRLF"), ("\n", R.env, "LF-after-CRLF")):
         lines, items = [], []
-        for b in bodies:
+        for b in (bodies if nlname != "LF-after-CRLF" else [x for x in bodies if "\n" in x or "\r" in x]):
             for q in "'\"":
                 lines.append(f"L {cps(src_norm(q + b + q) + ' ~ x')}")
                 items.append((b, q))
@@ -426,7 +560,7 @@ def escape_soup(ctx, R):
             if rl != ml:
                 # a literal Python reads (one-line, or triple-quoted for raw line breaks) that the lexer does not
                 # read as one string token of the same text: the property fails on it
-                pyv0 = python_value(lit, b, q) if nlname == "LF" else None
+                pyv0 = python_value(lit, b, q) if nlname.startswith("LF") else None
                 why0 = None
                 if pyv0 is not None and "\\N" not in b and (rl == "none" or rlen != len(src_norm(lit))):
                     why0 = f"Python reads {lit!r} as {pyv0!r}; the template lexer does not read it as one string literal"
@@ -451,7 +585,7 @@ def escape_soup(ctx, R):
                     warnings.simplefilter("ignore")
                     if "\n" not in b and "\r" not in b:
                         pyv = ast.literal_eval(lit)
-                    elif nlname == "LF" and q not in b and not b.endswith("\\"):
+                    elif nlname.startswith("LF") and q not in b and not b.endswith("\\"):
                         # raw line breaks: with the default newline_sequence the literal must denote what
                         # Python gives the same text in a triple-quoted literal (CR, CRLF -> LF)
                         pyv = ast.literal_eval(q * 3 + b + q * 3)
@@ -525,7 +659,9 @@ def run(ctx):
     L = ctx.size(4, 5)
     sp = []
     for n in range(1, L + 1):
-        sp += ["".join(t) for t in itertools.product(ALPHABET, repeat=n)]
+        # quick tier: the longest length uses four representative digits (0 1 7 9) instead of ten
+        alpha = ALPHABET if (n < L or ctx.tier == "thorough") else "0179_.eExXoObB+-"
+        sp += ["".join(t) for t in itertools.product(alpha, repeat=n)]
     check_numbers(ctx, R, sp, "", limit)
     sp2 = []
     for n in range(1, L):
@@ -537,6 +673,7 @@ def run(ctx):
     escape_soup(ctx, R)
     adjacent(ctx, R)
     literal_groups(ctx, R)
+    literal_positions(ctx, R)
 
 
 def replay(ctx, data):
@@ -574,6 +711,8 @@ def replay(ctx, data):
                 ctx.reject(case, f"{lit!r} gives {r!r}, Python {pyv!r}", data.get("signature"))
     elif "literals" in case:
         literal_groups(ctx, R)
+    elif "position" in case:
+        literal_positions(ctx, R)
     elif "source" in case:
         r = R.value(case["source"])
         want = "".join(s_of(v) for v in case["parts"])
